@@ -285,6 +285,14 @@ def run_batch(case, ctx):
         kw = draw_common(rng)
         d = int(rng.integers(1, 4))
         batches = gen.batch_sequence(rng, int(rng.integers(6, 26)), d, size=(6, 90), shift_p=0.4)
+        if rng.random() < 0.12:
+            # readings held in a narrow integer dtype, using the upper part of its range (ADC counts, pixel values, epoch seconds)
+            idt = str(rng.choice(["uint8", "int16", "int32"]))
+            top = {"uint8": 255, "int16": 32000, "int32": 2.1e9}[idt]
+            lo_ = min(float(b.min()) for b in batches)
+            hi_ = max(float(b.max()) for b in batches)
+            batches = [np.round((b - lo_) / (hi_ - lo_ + 1e-300) * top * 0.5 + top * 0.5) for b in batches]
+            ctx.count("integer_typed_batch_histories:" + idt)
         calls = []
         explicit_first = rng.random() < 0.5
         for i, X in enumerate(batches):
@@ -298,6 +306,7 @@ def run_batch(case, ctx):
                 calls.append(("update", calls[-1][1].copy()))  # the previous batch again
             else:
                 calls.append(("update", X))
+    idt = locals().get("idt") or case.get("literal", {}).get("dtype")
     det = KdqTreeBatch(**gen.maybe_numpy(kw, case, ctx))
     cmp_ = Cmp()
     model = None
@@ -308,10 +317,10 @@ def run_batch(case, ctx):
         for i, (op, X) in enumerate(calls):
             np.random.seed(rngtap.seed_for(case.get("seed_key", case["id"]), i))
             mark = tap.mark()
-            getattr(det, op)(X.copy())
+            getattr(det, op)(X.astype(idt) if idt else X.copy())
             ev = tap.since(mark)
             log.append([op, X.tolist() if X.size <= 200 else "omitted(%s)" % (X.shape,)])
-            base = dict(params=kw, calls=log, step=i)
+            base = dict(params=kw, calls=log, step=i, dtype=idt)
             built = None
             if op == "set_reference":
                 built = X
